@@ -103,8 +103,11 @@ CLAIMS["C16"] = {
             "read returns the database's record or the pending transaction value, and after a flush the epoch record is read from "
             "storage. The pinned commit violated it (rejected_write_witness, defect D3, repaired). Model tied to the real "
             "StorageManager by random operation sequences with injected write failures and real sleeps, with an independent oracle.",
-    "note": BASE_NOTE + "Partial: concurrent tasks on a multi-thread runtime (DashMap shards, a cache fill racing a commit) are not in "
-            "the model; its atomic step is one manager call.",
+    "note": BASE_NOTE + "Store.lean's atomic step is one manager call; the concurrent part is the separate model CacheFill.lean (one "
+            "entry, versions as numbers): for EVERY interleaving of readers, the writer and expiry, a read-through fill never leaves "
+            "an older version in the cache than the database holds (coherent_reachable, quiescent_cache_exact, answers_recent), "
+            "while the pinned code does (stale_fill_witness — defect D11, found on the real code by the storage-call scheduler "
+            "with read latency, repaired). DashMap shard internals are not modelled.",
 }
 CLAIMS["C15"] = {
     "text": "Proved in Lean: inside a transaction, get / the five user-state retrieval flags / all states / bulk versions return what "
@@ -163,8 +166,9 @@ CLAIMS["C13"] = {
             "D4, repaired). Tied to the Rust by runs with read-only instances lagging 0..3 epochs, compared with the model and "
             "judged by the published-epoch-hash oracle, AND by enumerating all interleavings (bounded preemptions) of read requests "
             "on a second instance with a publish at storage-call granularity — which found that key_history re-read the epoch record "
-            "per update proof (defect D5, repaired). PARTIAL: a cache fill racing a commit on ONE storage manager (multi-thread) and "
-            "the change-poller clause are not decided.",
+            "per update proof (defect D5, repaired), and, with readers sharing the writer's cached storage manager and read "
+            "latency, that a stale read-through fill replaced the committed records in the cache (defect D11, repaired; the repaired "
+            "protocol is proved coherent for all interleavings in CacheFill.lean). PARTIAL: the change-poller clause is not decided.",
     "note": BASE_NOTE + "The interleaving exploration is a search over schedules of the real code (it supplies the failing schedule); the "
             "theorem is the record-level snapshot property those requests rely on.",
 }
